@@ -476,7 +476,15 @@ fn pool(k: usize) -> rayon::ThreadPool {
 
 /// run `f` inside a rayon pool of `k` threads, in a child thread, with a wall-clock cap.
 /// Ok(Some(v)) = value, Ok(None) = panicked, Err(()) = did not complete within the cap.
+/// After the first timeout (a hang has been demonstrated and reported) later calls get a short cap, and after the
+/// third they are not started any more: a run against a deadlocking tree must itself end in bounded time.
+static TIMEOUTS: std::sync::atomic::AtomicUsize = std::sync::atomic::AtomicUsize::new(0);
 fn in_pool<T: Send + 'static>(k: usize, cap: Duration, f: impl FnOnce() -> T + Send + 'static) -> Result<Option<T>, ()> {
+  let seen = TIMEOUTS.load(std::sync::atomic::Ordering::SeqCst);
+  if seen >= 3 {
+    return Err(());
+  }
+  let cap = if seen >= 1 { cap.min(Duration::from_secs(20)) } else { cap };
   let (tx, rx) = mpsc::channel();
   std::thread::Builder::new()
     .stack_size(16 << 20)
@@ -487,7 +495,10 @@ fn in_pool<T: Send + 'static>(k: usize, cap: Duration, f: impl FnOnce() -> T + S
     .unwrap();
   match rx.recv_timeout(cap) {
     Ok(r) => Ok(r),
-    Err(_) => Err(()),
+    Err(_) => {
+      TIMEOUTS.fetch_add(1, std::sync::atomic::Ordering::SeqCst);
+      Err(())
+    }
   }
 }
 
